@@ -1,6 +1,6 @@
 """C07 — alpha-aware resizing: pipeline typestate of Resizer::resample_convolution."""
 from ..cfg import Dom, find_path, reachable_from
-from ..engines import alpha_rules
+from ..engines import alpha_rules, simd_rules
 from ..facts import CheckError
 from ..progs import programs
 from ..sym import Sym, fmt, unstable_locals
@@ -201,3 +201,4 @@ def run(rep, tier):
         rep.call(pipeline, rep, prog, "C07.pipeline")
         rep.call(nearest_no_alpha, rep, prog, "C07.nearest-no-alpha")
         rep.call(alpha_rules.alpha_set, rep, prog, "C07.alpha-set")
+        rep.call(simd_rules.lane_bypass, rep, prog, "C07.lane-bypass")
